@@ -530,6 +530,7 @@ func runC07(cfg Config) {
 			}
 		}
 	}
+	runPoolTraces(cfg, rep, []string{"VerifyIndex", "ChopFile", "Copy"}, cfg.N(360, 9000), 7)
 	c07CLI(cfg, rep, rng, monitor)
 	rep.Write(cfg.Out)
 }
@@ -819,6 +820,7 @@ func runC06(cfg Config) {
 			}
 		}
 	}
+	runPoolTraces(cfg, rep, []string{"ChopFile", "Copy"}, cfg.N(300, 6000), 6)
 	c06CLI(cfg, rep, rng, monitor)
 	rep.Write(cfg.Out)
 }
